@@ -12,12 +12,14 @@ import (
 )
 
 var table = map[string]func(tier string) int{
+	"C02": checks.C02,
 	"C03": checks.C03,
 	"C04": checks.C04,
 	"C06": checks.C06,
 	"C07": checks.C07,
 	"C10": checks.C10,
 	"C12": checks.C12,
+	"C16": checks.C16,
 }
 
 func main() {
